@@ -77,7 +77,7 @@ theorem longest_unique (r : Re) (s e : List Nat)
     `s ++ z` in which `e` is a suffix of `z` and of no proper prefix of `z` — the first occurrence of
     the end delimiter after the start delimiter (not overlapping it) is at the very end. -/
 theorem firstEnd_spec (s e : List Nat) (he : e ≠ []) (w : List Nat) :
-    (firstEndDfa s e).accepts w = true ↔ FirstEnd s e w := firstEndDfa_accepts_iff s e he w
+    (firstEndDfa s e).accepts w = true ↔ FirstEnd s e w := Kmp.firstEndDfa_accepts_iff s e he w
 
 /-- "…runs from its start delimiter to the first subsequent occurrence of its end delimiter": if the
     regex has the language of the specification automaton, then whatever prefix of the input it
@@ -86,7 +86,7 @@ theorem firstEnd_spec (s e : List Nat) (he : e ≠ []) (w : List Nat) :
 theorem match_is_first_end (r : Re) (s e : List Nat) (he : e ≠ [])
     (h : ∀ w, matchesRe r w = (firstEndDfa s e).accepts w) (w : List Nat) (n : Nat)
     (hm : matchesRe r (w.take n) = true) : FirstEnd s e (w.take n) := by
-  rw [h] at hm; exact (firstEndDfa_accepts_iff s e he _).mp hm
+  rw [h] at hm; exact (Kmp.firstEndDfa_accepts_iff s e he _).mp hm
 
 theorem checkCase_sound (c : BlockCase) (h : checkCase c = true) : BlockOk c :=
   ParolModel.re_equiv_sound c.re _ (firstEndDfa_respects c.s c.e) _ h
